@@ -59,7 +59,7 @@ prop("C05", ["prims.go", "c01.go"],
 
 # ------------------------------------------------------------------------------------------------ C02
 prop("C02", ["prims.go", "c02a.go"],
-     [run("core", "harnessC02a", ["common", "disjoint"], quick={"bound": "host and plugin each with 2 versioned sets, versions arbitrary distinct ints; every map iteration order; PLUGIN_PROTOCOL_VERSIONS built as Start builds it"})],
+     [run("core", "harnessC02a", ["common", "disjoint"], native="version", quick={"witness": 16, "bound": "host and plugin each with 2 versioned sets, versions arbitrary distinct ints; every map iteration order; PLUGIN_PROTOCOL_VERSIONS built as Start builds it"})],
      [STR, "os.Getenv reads the modelled process environment"], ["os.Getenv"],
      "more than 2 versions per side; legacy ProtocolVersion folding; damaged version lists",
      text="Bounded symbolic model checking of the real protocolVersion (with the real sort.Sort/sort.Reverse SSA) and the real checkProtoVersion over arbitrary version numbers on both sides and every map iteration order, against a reference 'highest common version' computed in the harness.",
@@ -67,8 +67,8 @@ prop("C02", ["prims.go", "c02a.go"],
 
 # ------------------------------------------------------------------------------------------------ C13
 prop("C13", ["prims.go", "c13.go"],
-     [run("check", "harnessC13", ["match", "mismatch", "empty-checksum", "nil-hash", "open-fails"],
-          quick={"bound": "digest <= 4 bytes and checksum <= 5 bytes of BitVec 8, symbolic lengths; Hash nil or not; file open failing or not"}),
+     [run("check", "harnessC13", ["match", "mismatch", "empty-checksum", "nil-hash", "open-fails"], native="check",
+          quick={"witness": 16, "bound": "digest <= 4 bytes and checksum <= 5 bytes of BitVec 8, symbolic lengths; Hash nil or not; file open failing or not"}),
       run("start-order", "harnessC13start", ["launched", "refused", "runnerfunc-refused"], files=WORLD,
           quick={"bound": "whole Client.Start composed with a real plugin, launch through exec.Cmd and through a RunnerFunc, SecureConfig with digest <= 2 and checksum <= 3 symbolic bytes: the process is launched iff the checksum matches"})],
      ["hash.Hash is a harness implementation returning an arbitrary digest (the hash function itself is outside the claim)", "os.Open/io.Copy/File.Close modelled: open may fail"],
